@@ -145,9 +145,13 @@ def options(S):
     t["-dpi"] = (["-dpi", tok], None, lambda c, v=v: any_call(S, c, "mpl", "savefig", lambda a, k: S.same(k["dpi"], v)))
     for side in ("left", "right", "top", "bottom"):
         tok, v = S.token_decimal("-" + side, 0, 1)
-        t["-" + side] = (["-" + side, tok], None, lambda c, v=v, side=side: any_call(S, c, "fig", "subplots_adjust", lambda a, k: S.same(k[side], v)))
+        # the requested margin reaches subplots_adjust, and the file is then saved with exactly these margins
+        # (bbox_inches='tight' would crop them away)
+        t["-" + side] = (["-" + side, tok], None, lambda c, v=v, side=side: S.and_(
+            any_call(S, c, "fig", "subplots_adjust", lambda a, k: S.same(k[side], v)),
+            all_calls(S, c, "mpl", "savefig", lambda a, k: k.get("bbox_inches") is None)))
     t["-nomargin"] = (["-nomargin"], None, lambda c: any_call(S, c, "mpl", "subplots_adjust", lambda a, k: k["left"] == 0 and k["right"] == 1 and k["top"] == 1 and k["bottom"] == 0))
-    t["-f"] = ([], None, lambda c: any_call(S, c, "mpl", "savefig", lambda a, k: a[0] == "out.png"))
+    t["-f"] = ([], None, lambda c: any_call(S, c, "mpl", "savefig", lambda a, k: a[0] == "out.png" and k.get("bbox_inches") == "tight"))
     # limits together with ticks: both arrive, and the limits are set last (matplotlib's set_xticks /
     # set_yticks widen the view so that every tick is visible, which would override the user's limits)
     def last_index(c, method):
